@@ -19,7 +19,7 @@ TIE_A = ["Norm.", "Hedge.", "Term.", "code:fuzzylite.engine.Engine.input_values.
          "code:fuzzylite.engine.Engine.values.fget", "code:fuzzylite.engine.Engine.variables.fget",
          "code:fuzzylite.engine.Engine.variable", "code:fuzzylite.engine.Engine.input_variable",
          "code:fuzzylite.engine.Engine.output_variable", "code:fuzzylite.engine.Engine.rule_block",
-         "code:fuzzylite.engine.Engine.__getitem__"]
+         "code:fuzzylite.engine.Engine.__getitem__", "code:fuzzylite.variable.Variable.term"]
 RULE = ("engines with the General activation method (Mamdani, Larsen, Takagi-Sugeno, Tsukamoto, hybrid; every lock-previous / "
         "default / lock-range setting) x batches of 1..8 rows including NaN and +-inf rows, run three ways: (i) one batch "
         "through per-variable arrays, (ii) one batch through `engine.input_values = matrix`, (iii) row by row with Python "
